@@ -147,7 +147,13 @@ def analyse(repo: Repo, tier: str = "quick") -> List[Rec]:
                 continue
             for ef in p.effects:
                 if ef[0] == "assert":
-                    if _tautology(ef[1]):
+                    # the dispatch of a tensor class hands a handler with ONE tensor operand an instance of that class: asserting it is a no-op
+                    unary_self = len(tparams) == 1 and U(ef[1]) in (f"isinstance({tparams[0]}, {QB})", f"isinstance({tparams[0]}, QTensor)", f"isinstance({tparams[0]}, ({QB},))")
+                    # established on this path: a fact of the path conditions, or the value was just built by the symmetric quantizer
+                    by_fact = hp.fact(U(ef[1])) is True
+                    built = isinstance(ef[1], ast.Call) and U(ef[1].func) == "isinstance" and len(ef[1].args) == 2 and U(ef[1].args[1]) in (QB, "QTensor") \
+                        and isinstance(ef[1].args[0], ast.Call) and U(ef[1].args[0].func) in ("SymmetricQuantizer.apply", "quantize_activation", QB)
+                    if _tautology(ef[1]) or unary_self or by_fact or built:
                         R("C05", "C05.R7", "ok", h, ef[2], "", f"assert `{U(ef[1])[:70]}` holds by construction on this path")
                         continue
                     txt = U(ef[1])
